@@ -164,6 +164,11 @@ func cmdCliCheck(args []string) {
 		if r.Intn(6) == 0 { // metadata with characters that matter to formatting / escaping
 			c.Text = c.Text + "\n" + pick(r, []string{`set_tx_meta("note", "fee 15% of total %d %s")`, `set_account_meta(@a, "discount", "100%")`, `set_tx_meta("q", "say \\\"hi\\\" C:\\temp")`})
 		}
+		if r.Intn(8) == 0 {
+			// a long input (several kilobytes on whichever channel carries it): a comment and a long metadata value
+			c.Text = "/* " + strings.Repeat("padding of the script, line after line. ", 80) + "*/\n" + c.Text +
+				"\nset_tx_meta(\"long\", \"" + strings.Repeat("0123456789abcdef", 200) + "\")"
+		}
 		real := cliInput{script: c.Text, vars: c.RawVars, bal: bigBalances(c, r), meta: c.Meta}
 		if r.Intn(5) == 0 {
 			real.vars = copyVars(real.vars)
